@@ -61,6 +61,7 @@ struct Shape {
   virtual bool OK() const = 0;
   // descriptions
   virtual Constraint_System constraints() const = 0;
+  virtual Constraint_System matrix_constraints() const = 0;   // constraints() of the exact mpq_class image of the matrix
   virtual Constraint_System minimized_constraints() const = 0;
   virtual Congruence_System congruences() const = 0;
   virtual Congruence_System minimized_congruences() const = 0;
@@ -149,6 +150,7 @@ struct ShapeImpl : public Shape {
   typedef typename DomInfo<D>::other Other;
   typedef typename std::conditional<std::is_same<T, mpq_class>::value, double, mpq_class>::type U;
   typedef typename DomInfo<D>::template rebind<U>::type DU;
+  typedef typename DomInfo<D>::template rebind<mpq_class>::type DQ;
   D d;
   ShapeImpl(int n, bool empty) : d(n, empty ? EMPTY : UNIVERSE) {}
   explicit ShapeImpl(const D& x) : d(x) {}
@@ -160,6 +162,7 @@ struct ShapeImpl : public Shape {
   void ascii_dump(std::ostream& s) const { d.ascii_dump(s); }
   bool OK() const { return d.OK(); }
   Constraint_System constraints() const { return d.constraints(); }
+  Constraint_System matrix_constraints() const { DQ q(d); return q.constraints(); }
   Constraint_System minimized_constraints() const { return d.minimized_constraints(); }
   Congruence_System congruences() const { return d.congruences(); }
   Congruence_System minimized_congruences() const { return d.minimized_congruences(); }
